@@ -1,14 +1,23 @@
 // Exhaustive extraction of the five character-class predicates (property C18).
 use xml_nom::xmlchar;
 
-fn runs(f: fn(char) -> bool) -> String {
-    // maximal runs of scalar values on which f is true, as lo-hi in hex, comma separated
+fn runs(name: &str, f: fn(char) -> bool, panics: &mut Vec<String>) -> String {
+    // maximal runs of scalar values on which f is true, as lo-hi in hex, comma separated; a predicate that panics on a
+    // value counts as false there and the value is reported in `panics`
     let mut out: Vec<String> = vec![];
     let mut start: Option<u32> = None;
     let mut prev: u32 = 0;
     for cp in 0u32..=0x10FFFF {
         let v = match char::from_u32(cp) {
-            Some(c) => f(c),
+            Some(c) => match std::panic::catch_unwind(|| f(c)) {
+                Ok(b) => b,
+                Err(_) => {
+                    if panics.len() < 8 {
+                        panics.push(format!("{}:{:X}", name, cp));
+                    }
+                    false
+                }
+            },
             None => false,
         };
         if v {
@@ -27,14 +36,13 @@ fn runs(f: fn(char) -> bool) -> String {
 }
 
 pub fn classes() -> String {
-    format!(
-        "char={} namestart={} namechar={} pubid={} encname={}",
-        runs(xmlchar::is_char),
-        runs(xmlchar::is_name_start_char),
-        runs(xmlchar::is_name_char),
-        runs(xmlchar::is_pubid_char),
-        runs(xmlchar::is_enc_name)
-    )
+    let mut panics: Vec<String> = vec![];
+    let a = runs("char", xmlchar::is_char, &mut panics);
+    let b = runs("namestart", xmlchar::is_name_start_char, &mut panics);
+    let c = runs("namechar", xmlchar::is_name_char, &mut panics);
+    let d = runs("pubid", xmlchar::is_pubid_char, &mut panics);
+    let e = runs("encname", xmlchar::is_enc_name, &mut panics);
+    format!("char={} namestart={} namechar={} pubid={} encname={} panics={}", a, b, c, d, e, panics.join(","))
 }
 
 // class1 <hex code point>: the five answers for one scalar value (used by replays)
